@@ -46,6 +46,7 @@ type Result struct {
 	Sample     any        `json:"sample,omitempty"`
 	Extra      map[string]any `json:"extra,omitempty"`
 	Fatal      bool       `json:"fatal,omitempty"` // worker must be restarted after this job
+	Observations []Violation `json:"observations,omitempty"`
 }
 
 var scratchRoot string
@@ -151,6 +152,7 @@ func runJob(t *testing.T, job *Job) (res *Result) {
 	runtime.VerifSetSelectKey(0)
 	os.VerifHook = nil
 	res.Violation = r.viol
+	res.Observations = r.observations
 	res.BudgetStop = r.budgetStop
 	res.Stats = r.stats
 	res.StateSigs = r.stats.StateSigs
